@@ -251,8 +251,13 @@ func directed(r *rand.Rand, k int, round int64) (*clientSpec, *policy) {
 		p.initial = []string{"publickey"}
 		p.pSuccess = 0.5
 		if cert {
-			// reject SHA-2 certificate offers half of the time to reach the ssh-rsa-cert retry
-			p.pkWeights = [nPKModes]int{1, 0, 0, 0, 0, 1}
+			// refuse SHA-2 certificate offers to reach the ssh-rsa-cert-v01 retry:
+			// deterministically once (even rounds) or at random (odd rounds)
+			if round%2 == 0 {
+				p.rejectSHA2CertOnce = true
+			} else {
+				p.pkWeights = [nPKModes]int{1, 0, 0, 0, 0, 1}
+			}
 		}
 	case 4: // endless partial success: the documented cap on attempts
 		p.directed = "endless-partial-success"
